@@ -90,5 +90,31 @@ Definition edit (pf pt : tpos) (vals : list N) (t : ticket) (v : option vvec) (l
   | _, _ => None
   end.
 
+(* findNodePos (treeByIndex.FindForText): the position right after the i-th visible character,
+   the head for 0 *)
+Definition live (c : tch) : bool := match c_rm c with None => true | Some _ => false end.
+
+Fixpoint pos_after_nth (l : list tch) (i : nat) : option tpos :=
+  match l with
+  | [] => None
+  | c :: r => if live c then
+                match i with
+                | O => None
+                | S O => Some (PAfter (c_tk c) (c_off c))
+                | S j => pos_after_nth r j
+                end
+              else pos_after_nth r i
+  end.
+
+Definition pos_of_index (l : list tch) (i : nat) : option tpos :=
+  match i with O => Some PHead | _ => pos_after_nth l i end.
+
+(* a local edit by visible indices: CreateRange(i, j) and Edit with no version vector *)
+Definition local_edit (i j : nat) (vals : list N) (t : ticket) (l : list tch) : option (list tch) :=
+  match pos_of_index l i, pos_of_index l j with
+  | Some pf, Some pt => edit pf pt vals t None l
+  | _, _ => None
+  end.
+
 Definition visible (l : list tch) : list N :=
   flat_map (fun c => match c_rm c with None => [c_val c] | Some _ => [] end) l.
